@@ -147,6 +147,21 @@ def check_case(chain, st, channel, ctx, rep, pytrs):
             tl = d.parse(**kw)
             qqs = tl[0].qqs
             ctx.hit('boundary:PLSSDesc.qqs')
+        elif channel == 'reconfigure':
+            # already parsed under other settings, then reconfigured through
+            # the list, then re-parsed with no arguments at all
+            # (the first configuration sets only a minimum, so that the
+            # second one never has to UNset anything -- assigning a config
+            # keeps the earlier values of settings it does not mention)
+            tl = pytrs.TractList([pytrs.Tract(
+                text, parse_qq=True, config='qq_depth_min.1')])
+            own = _config_text(st)
+            if st['min'] is None and st['depth'] is None:
+                own = (own + ',qq_depth_min.2').lstrip(',')
+            tl.config_tracts(own)
+            tl.parse_tracts()
+            qqs, whole = tl[0].qqs, None
+            ctx.hit('boundary:TractList.parse_tracts')
         elif channel == 'keyword-over-config':
             # a configured exact depth is ignored once min/max (or another
             # depth) is passed as keyword -- documented in Tract.parse
@@ -189,7 +204,8 @@ def _setup(ctx):
 CHANNELS = ('config', 'keyword', 'direct', 'keyword-over-config',
             'config', 'keyword', 'direct', 'plssdesc',
             'config', 'keyword', 'direct', 'keyword-over-config',
-            'config', 'keyword', 'direct', 'plssdesc-keyword')
+            'config', 'keyword', 'direct', 'plssdesc-keyword',
+            'config', 'keyword', 'reconfigure', 'direct')
 
 
 def run_shard(shard, ctx):
